@@ -432,8 +432,10 @@ func expect(rules []Desc, probes []Probe) Sig {
 // texts that are a spelling of some list of descriptions (in a vocabulary
 // wider than the enumerated one) and says why not otherwise.
 
-func refConfig(cfg Config) ([]Desc, error) {
-	r := &refReader{files: cfg.Files}
+// refConfig reads cfg. literalSlash selects the alternative reading in which a
+// slash after the first character of an unquoted key is an ordinary character.
+func refConfig(cfg Config, literalSlash bool) ([]Desc, error) {
+	r := &refReader{files: cfg.Files, literalSlash: literalSlash}
 	if err := r.text(cfg.Main, ""); err != nil {
 		return nil, err
 	}
@@ -441,9 +443,10 @@ func refConfig(cfg Config) ([]Desc, error) {
 }
 
 type refReader struct {
-	files    map[string]string
-	rules    []Desc
-	includes int
+	literalSlash bool
+	files        map[string]string
+	rules        []Desc
+	includes     int
 }
 
 func (r *refReader) text(s, dir string) error {
@@ -528,7 +531,7 @@ func (r *refReader) line(l, dir string) error {
 		r.rules = append(r.rules, Desc{SecAction: true, Actions: al})
 		return nil
 	case "secrule":
-		d, err := refRule(rest)
+		d, err := refRule(rest, r.literalSlash)
 		if err != nil {
 			return err
 		}
@@ -538,14 +541,14 @@ func (r *refReader) line(l, dir string) error {
 	return bad("unknown-directive")
 }
 
-func refRule(rest string) (Desc, error) {
+func refRule(rest string, literalSlash bool) (Desc, error) {
 	var d Desc
 	tg, rest, ok := strings.Cut(rest, " ")
 	if !ok {
 		return d, bad("missing-operator")
 	}
 	var err error
-	if d.Targets, err = refTargets(tg); err != nil {
+	if d.Targets, err = refTargets(tg, literalSlash); err != nil {
 		return d, err
 	}
 	rest = strings.TrimLeft(rest, " ")
@@ -722,7 +725,7 @@ func refActions(s string) ([]Action, error) {
 
 var collRe = regexp.MustCompile(`^[A-Z_]+$`)
 
-func refTargets(s string) ([]Target, error) {
+func refTargets(s string, literalSlash bool) ([]Target, error) {
 	var out []Target
 	i := 0
 	for {
@@ -784,7 +787,7 @@ func refTargets(s string) ([]Target, error) {
 					if s[k] == '\'' {
 						return nil, bad("quote-inside-plain-key")
 					}
-					if s[k] == '/' {
+					if s[k] == '/' && !(literalSlash && k > j) {
 						return nil, bad("slash-inside-plain-key")
 					}
 					k++
